@@ -287,7 +287,9 @@ func TakeSnap(b *board.Board) Snap {
 // Diff describes the first difference between two snapshots ("" if equal).
 func (s Snap) Diff(o Snap) string {
 	switch {
-	case s.Pos != o.Pos:
+	case fenPosition(s.FEN) != fenPosition(o.FEN):
+		// compared as reported (placement, side, rights, e.p.), not by representation: a position may carry
+		// caches that a read-only query fills
 		return fmt.Sprintf("position %v != %v", s.FEN, o.FEN)
 	case s.Turn != o.Turn:
 		return "turn"
@@ -311,6 +313,20 @@ func (s Snap) Diff(o Snap) string {
 		return fmt.Sprintf("result %v/%v != %v/%v", s.Outcome, s.Reason, o.Outcome, o.Reason)
 	}
 	return ""
+}
+
+// fenPosition is the position part of a FEN (without the two counters).
+func fenPosition(f string) string {
+	n := 0
+	for i := 0; i < len(f); i++ {
+		if f[i] == ' ' {
+			n++
+			if n == 4 {
+				return f[:i]
+			}
+		}
+	}
+	return f
 }
 
 // DiffNoResult compares everything except the result.
